@@ -116,7 +116,7 @@ Section Proofs.
     match type of H with (if ?c then _ else _) = _ => destruct c end; [discriminate|].
     inversion H; subst; clear H. split; [reflexivity|].
     unfold flagged_spec. cbn. repeat split.
-    exists key, created. eexists. cbn. repeat split.
+    exists key, created. eexists. cbn. repeat split. exact Es.
   Qed.
 
   Lemma process_record_ext cfg st r r' st' ch :
@@ -171,8 +171,10 @@ Section Proofs.
           rewrite U1, map_app in Hn. intros Hin. apply Hn. apply in_or_app. now left.
         * rewrite process_record_unflagged in E1 by exact Hf. now inversion E1.
       + eapply IH; [exact E2| |exact HF].
-        destruct X1 as (used & new & U1 & _ & _). rewrite U1, map_app in Hnd.
-        apply NoDup_app_remove_l in Hnd. exact Hnd.
+        destruct (flagged r) eqn:Hf.
+        * destruct (process_record_flagged _ _ _ _ _ _ Hf E1) as (_ & _ & _ & _ & _ & _ & key & created & env & S1 & _).
+          rewrite S1 in Hnd. cbn in Hnd. now inversion Hnd.
+        * rewrite process_record_unflagged in E1 by exact Hf. inversion E1; subst. exact Hnd.
   Qed.
 
   Lemma process_records_length cfg : forall rs st rs' st' ch,
@@ -199,11 +201,13 @@ Section Proofs.
     b_attrs b' = wrap16 (b_attrs b - (b_attrs b) mod 8 + used) /\
     b_num b' = wrap32 n /\ b_recs b' = payload.
   Proof.
-    unfold Rewrite.rebuild_batch. intros H. inversion H; subst; clear H.
-    split; [reflexivity|]. split; [unfold same_header; cbn; repeat split|].
-    cbn [b_len b_crc b_attrs b_num b_recs]. repeat split.
-    - rewrite !enc_batch_len. reflexivity.
-    - rewrite !skipn_21_enc. reflexivity.
+    unfold Rewrite.rebuild_batch. intros H. apply pair_equal_spec in H. destruct H as [Hb Hr].
+    subst raw'. subst b'.
+    split; [reflexivity|]. split; [unfold same_header; cbn [b_first b_ple b_magic b_lod b_fts b_mts b_pid b_pepoch b_fseq]; repeat split|].
+    cbn [b_len b_crc b_attrs b_num b_recs].
+    split; [rewrite !enc_batch_len; reflexivity|].
+    split; [rewrite !skipn_21_enc; reflexivity|].
+    repeat split.
   Qed.
 
   Lemma process_batch_unchanged cfg st bt bt' st' :
@@ -243,7 +247,9 @@ Section Proofs.
     destruct (rebuild_batch b payload used (zlen rs')) as [b3 raw3] eqn:Er.
     inversion H; subst; clear H.
     destruct (rebuild_batch_valid _ _ _ _ _ _ Er) as (R1 & R2 & R3 & R4 & R5 & R6 & R7).
-    exists (r0 :: records), rs', used. rewrite R7. repeat split; assumption.
+    exists (r0 :: records), rs', used. rewrite R7.
+    split; [exact Eb|]. split; [exact Ep|]. split; [exact Ec|]. split; [exact R1|]. split; [exact R2|].
+    split; [exact R3|]. split; [exact R4|]. split; [exact R5|exact R6].
   Qed.
 
   Lemma process_batch_ext cfg st bt bt' st' ch :
@@ -270,6 +276,32 @@ Section Proofs.
     destruct ch; now inversion H.
   Qed.
 
+  Lemma process_records_unflagged cfg : forall rs st rs' st' ch,
+    process_records cfg st rs = Ok (rs', st', ch) ->
+    Forall2 (fun r r' => flagged r = false -> r' = r) rs rs'.
+  Proof.
+    induction rs as [|r rs IH]; intros st rs' st' ch H; cbn in H.
+    - inversion H; subst. constructor.
+    - destruct (process_record cfg st r) as [[[r1 st1] ch1]| |] eqn:E1; try discriminate.
+      destruct (process_records cfg st1 rs) as [[[rs2 st2] ch2]| |] eqn:E2; try discriminate.
+      inversion H; subst. constructor; [|eapply IH; eauto].
+      intros Hf. rewrite process_record_unflagged in E1 by exact Hf. now inversion E1.
+  Qed.
+
+  Theorem unflagged_unchanged cfg :
+    (forall st rs rs' st' ch,
+       process_records cfg st rs = Ok (rs', st', ch) ->
+       length rs' = length rs /\
+       Forall2 (fun r r' => flagged r = false -> r' = r) rs rs') /\
+    (forall st bt bt' st', process_batch cfg st bt = Ok (bt', st', false) -> bt' = bt) /\
+    (forall st p p' st', process_partition cfg st p = Ok (p', st', false) -> p' = p).
+  Proof.
+    split; [|split].
+    - intros st rs rs' st' ch H. split; [eapply process_records_length; eauto|eapply process_records_unflagged; eauto].
+    - intros. eapply process_batch_unchanged; eauto.
+    - intros. eapply process_partition_unchanged; eauto.
+  Qed.
+
   (* ---------- re-decoding the rewritten records ---------- *)
   Definition wf_rec (r : rec) : Prop := zlen (enc_record_body r) < 2147483648.
 
@@ -280,43 +312,41 @@ Section Proofs.
   Proof.
     induction rs as [|r rs IH]; intros rest Hwf; [reflexivity|].
     inversion Hwf as [|? ? Hr Hrs]; subst.
-    cbn [length Rewrite.read_records enc_records flat_map].
-    unfold enc_record at 1. fold (enc_records rs).
+    cbn [length Rewrite.read_records enc_records flat_map]. fold (enc_records rs).
     pose proof (zlen_nonneg (enc_record_body r)) as Hpos. unfold wf_rec in Hr.
-    rewrite wrap32_id by lia. rewrite <- !app_assoc.
-    rewrite lfs_varint_put by lia.
     set (pv := put_varint (zlen (enc_record_body r))).
-    assert (zlen pv + zlen (enc_record_body r) <? 0 = false) as E0.
-    { apply Z.ltb_ge. pose proof (zlen_nonneg pv). lia. }
+    assert (Henc : enc_record r = pv ++ enc_record_body r).
+    { unfold enc_record, pv. now rewrite wrap32_id by lia. }
+    rewrite <- app_assoc. rewrite Henc at 1. rewrite <- app_assoc.
+    unfold pv at 1. rewrite lfs_varint_put by lia. fold pv.
     assert (zlen (enc_record_body r) <? 0 = false) as -> by (apply Z.ltb_ge; lia).
-    assert (zlen (pv ++ enc_record_body r ++ enc_records rs ++ rest) <?
+    assert (zlen (enc_record r ++ enc_records rs ++ rest) <?
             zlen pv + zlen (enc_record_body r) = false) as ->.
-    { apply Z.ltb_ge. rewrite !zlen_app. pose proof (zlen_nonneg (enc_records rs)). pose proof (zlen_nonneg rest). lia. }
+    { apply Z.ltb_ge. rewrite Henc, !zlen_app. pose proof (zlen_nonneg (enc_records rs)). pose proof (zlen_nonneg rest). lia. }
     cbn [orb].
-    assert (Z.to_nat (zlen pv + zlen (enc_record_body r)) = length (pv ++ enc_record_body r)) as Hn.
-    { rewrite <- zlen_app. unfold zlen. now rewrite Nat2Z.id. }
-    rewrite Hn. rewrite (app_assoc pv). rewrite firstn_app, firstn_all, Nat.sub_diag. cbn [firstn].
+    assert (Z.to_nat (zlen pv + zlen (enc_record_body r)) = length (enc_record r)) as Hn.
+    { rewrite Henc, <- zlen_app. unfold zlen. now rewrite Nat2Z.id. }
+    rewrite Hn. rewrite firstn_app, firstn_all, Nat.sub_diag. cbn [firstn].
     rewrite app_nil_r. rewrite skipn_app, skipn_all, Nat.sub_diag. cbn [skipn app].
-    change (pv ++ enc_record_body r) with (put_varint (zlen (enc_record_body r)) ++ enc_record_body r).
-    assert (put_varint (zlen (enc_record_body r)) ++ enc_record_body r = enc_record r) as ->.
-    { unfold enc_record. now rewrite wrap32_id by lia. }
     rewrite decode_encode by exact Hr. f_equal. apply IH. exact Hrs.
   Qed.
 
   Hypothesis compress_roundtrip : forall c raw out used,
     1 <= c <= 4 -> compress c raw = (out, used) -> used = c /\ decompress c out = Some raw.
 
-  (* the rewritten batch decodes (kmsg + kgo, same function the proxy uses) to the rewritten records *)
-  Lemma rewritten_batch_decodes cfg st st' b b' raw' rs' :
+  (* the rewritten batch decodes (kmsg + kgo, the same functions the proxy uses) to the
+     rewritten records, and keeps its codec *)
+  Lemma rewritten_batch_decodes cfg st st' b raw b' raw' :
+    process_batch cfg st (b, raw) = Ok ((b', raw'), st', true) ->
     0 <= (b_attrs b) mod 8 <= 4 -> -32768 <= b_attrs b < 32768 ->
-    batch_spec cfg st st' b b' raw' ->
-    (forall rs, batch_records b = Some rs -> process_records cfg st rs = Ok (rs', st', true) -> True) ->
-    (exists rs, batch_records b = Some rs /\ process_records cfg st rs = Ok (rs', st', true)) ->
-    Forall wf_rec rs' -> zlen rs' < 2147483648 ->
-    (b_attrs b') mod 8 = (b_attrs b) mod 8 /\ batch_records b' = Some rs'.
+    exists rs rs',
+      batch_records b = Some rs /\ process_records cfg st rs = Ok (rs', st', true) /\
+      (Forall wf_rec rs' -> zlen rs' < 2147483648 ->
+       (b_attrs b') mod 8 = (b_attrs b) mod 8 /\ batch_records b' = Some rs').
   Proof.
-    intros Hc Ha (rs & rs2 & used & B1 & B2 & B3 & _ & _ & _ & _ & B8 & B9) _ (rs0 & E1 & E2) Hwf Hn.
-    rewrite E1 in B1. inversion B1; subst rs0. rewrite E2 in B2. inversion B2; subst rs2. clear B1 B2.
+    intros H Hc Ha. apply process_batch_changed in H.
+    destruct H as (rs & rs' & used & B1 & B2 & B3 & _ & _ & _ & _ & B8 & B9).
+    exists rs, rs'. split; [exact B1|]. split; [exact B2|]. intros Hwf Hn.
     unfold Rewrite.compress_records in B3.
     assert (Hused : used = (b_attrs b) mod 8 /\
                     (if (b_attrs b) mod 8 =? 0 then Some (b_recs b') else decompress ((b_attrs b) mod 8) (b_recs b')) = Some (enc_records rs')).
